@@ -6,6 +6,7 @@ def explore(run, lean):
     ao_corr.explore(run, "C11", 200 if run.tier == "quick" else 4000)
     ao_corr.explore_subclass_capacity(run, "C11", 12 if run.tier == "quick" else 300)
     ao_corr.explore_track(run, "C11", 25 if run.tier == "quick" else 800)
+    ao_corr.explore_start_vs_arm(run, "C11", (80 if run.tier == "quick" else 1500) * (4 if (lean.get("broken") or run.disagreements) else 1))
     run.extra["rule"] = ("scenarios: one control thread issuing 2-7 calls (timed post_fifo/post_lifo with period 1-3 ticks, times 0-3, "
                          "deferred or not; cancel_event / cancel_events with the identical or an equal-but-distinct id / name object; "
                          "stop()), tracked-source capacity 2-6, optional plain poster; real ActiveObject under the deterministic "
@@ -14,6 +15,8 @@ def explore(run, lean):
     run.assumptions.append("virtual time: sleep(p) wakes exactly p ticks later; real-clock drift (execution time per cycle) is not modelled")
     ROUND6_RULE = "; a subclass whose QUEUE_SIZE is above the base class's, filled to its own capacity (cancel by id / name, stop); 2-3 threads arming and cancelling on one object at bytecode level, replayed on the Lean model Conc.Track in lock-acquisition order (family track)"
     run.extra["rule"] += ROUND6_RULE
+    ROUND8_RULE = '; start() racing a timed post / cancel on the same object (round 8)'
+    run.extra["rule"] = run.extra.get("rule", "") + ROUND8_RULE
 
 
 def replay(case):
